@@ -48,6 +48,10 @@ pub struct Case {
     pub universe: u8,
     pub batch: u8,
     pub ops: Vec<Op>,
+    /// 0: every peer answers its fetches. p > 0: peer p announces but never answers a fetch (neither
+    /// success nor failure): whatever an answering peer announces must still arrive
+    #[serde(default)]
+    pub stalled: u8,
 }
 
 #[derive(Debug, Default)]
@@ -111,12 +115,13 @@ pub fn run_case(case: &Case, uni: &Universe) -> (Vec<(String, String)>, Info) {
         c.blocks.contains_key(h) || m.blocks_queue.iter().any(|b| &b.hash == h)
     };
 
+    let stalled: u64 = if (case.stalled as u64) <= npeers && npeers > 1 { case.stalled as u64 } else { 0 };
     let mut ops: Vec<Op> = case.ops.clone();
-    // closing phase: answer everything, tick until quiet
+    // closing phase: answer everything (except for a stalled peer), tick until quiet
     let closing_from = ops.len();
     for _ in 0..(nh * npeers as usize + 4) {
         for p in 1..=npeers {
-            ops.push(Op::FetchOk { peer: p as u8, which: 0 });
+            ops.push(Op::FetchOk { peer: (p - 1) as u8, which: 0 });
         }
         ops.push(Op::Tick);
     }
@@ -143,6 +148,9 @@ pub fn run_case(case: &Case, uni: &Universe) -> (Vec<(String, String)>, Info) {
             Op::FetchOk { peer, which } => {
                 opname = "fetch_ok";
                 let p = 1 + (peer as u64 % npeers);
+                if p == stalled {
+                    continue;
+                }
                 let q = in_flight.entry(p).or_default();
                 if q.is_empty() {
                     continue;
@@ -177,6 +185,9 @@ pub fn run_case(case: &Case, uni: &Universe) -> (Vec<(String, String)>, Info) {
             Op::FetchFail { peer } => {
                 opname = "fetch_fail";
                 let p = 1 + (peer as u64 % npeers);
+                if p == stalled {
+                    continue;
+                }
                 let q = in_flight.entry(p).or_default();
                 if q.is_empty() {
                     continue;
@@ -283,9 +294,29 @@ pub fn run_case(case: &Case, uni: &Universe) -> (Vec<(String, String)>, Info) {
         // quiescence: all fetches answered
         info.quiescent_checked = true;
         for (p, ann) in &announced {
+            if *p == stalled {
+                continue; // its window stays full of unanswered fetches: later blocks wait behind them
+            }
             for h in ann {
                 if !has(&n, h) && requested_ever.get(h).copied().unwrap_or(0) == 0 {
                     v.push(("C16|announced_block_never_requested".into(), format!("block id {} announced by peer {p} is lacking at quiescence and was never requested from anybody", by_hash[h].id)));
+                }
+            }
+        }
+        // with a stalled peer: what an answering peer announced must have arrived all the same
+        if stalled != 0 {
+            for (p, ann) in &announced {
+                if *p == stalled {
+                    continue;
+                }
+                for h in ann {
+                    if !has(&n, h) {
+                        v.push((
+                            "C16|block_announced_by_answering_peer_never_arrives".into(),
+                            format!("peer {stalled} never answers its fetches; block id {} was announced by peer {p}, which answers every fetch, and is still lacking at quiescence ({} requests for it in all)", by_hash[h].id, requested_ever.get(h).copied().unwrap_or(0)),
+                        ));
+                        break;
+                    }
                 }
             }
         }
@@ -430,7 +461,7 @@ pub fn arb_op() -> impl Strategy<Value = Op> {
 }
 
 pub fn run(ctx: &mut Ctx) {
-    ctx.rule = "the scheduler is driven through the routing thread only (announcements as BlockHeaderHash messages from authenticated peers, 2 s timer ticks, BlockFetched with the real block, BlockFetchFailed, BlockchainUpdated after the block arrived by another route); fetch requests are read at InterfaceIO::fetch_block_from_peer. exhaustive: all operation sequences to depth D over 2 peers x 3 blocks (batch sizes 1 and 2), each followed by a closing phase that answers every fetch; random: sequences to length 60 over 3 peers x 8 real blocks (incl. two of equal height), batch in {1,2,3,10}. invariants: in flight per peer <= batch; requests of one selection round in non-decreasing height and no announced, lacking, never-requested lower block skipped; no block in flight twice for one peer; at quiescence every announced block is present or was requested; queue empty when nothing is lacking; an always-failing block is requested <= MAX_RETRIES_PER_BLOCK + 2 times per peer in 1800 rounds, whether or not the peer announces it again at generated rounds (before and after the retries are used up) and a second peer announces it too. evaluations = operations executed. non-trivial = >= 2 requests and a completion or failure; distinct by case digest".into();
+    ctx.rule = "the scheduler is driven through the routing thread only (announcements as BlockHeaderHash messages from authenticated peers, 2 s timer ticks, BlockFetched with the real block, BlockFetchFailed, BlockchainUpdated after the block arrived by another route); fetch requests are read at InterfaceIO::fetch_block_from_peer. exhaustive: all operation sequences to depth D over 2 peers x 3 blocks (batch sizes 1 and 2), each followed by a closing phase that answers every fetch; random: sequences to length 60 over 3 peers x 8 real blocks (incl. two of equal height), batch in {1,2,3,10}. invariants: in flight per peer <= batch; requests of one selection round in non-decreasing height and no announced, lacking, never-requested lower block skipped; no block in flight twice for one peer; at quiescence every announced block is present or was requested; in a quarter of the random sequences one peer never answers a fetch, and whatever an answering peer announced must have arrived all the same; queue empty when nothing is lacking; an always-failing block is requested <= MAX_RETRIES_PER_BLOCK + 2 times per peer in 1800 rounds, whether or not the peer announces it again at generated rounds (before and after the retries are used up) and a second peer announces it too. evaluations = operations executed. non-trivial = >= 2 requests and a completion or failure; distinct by case digest".into();
     let uni3 = universe(4);
     let uni8 = universe(9);
     check_retry_bound(ctx, &uni3);
@@ -441,7 +472,7 @@ pub fn run(ctx: &mut Ctx) {
     for batch in [1u8, 2] {
         let mut idx = vec![0usize; depth];
         loop {
-            let case = Case { peers: 2, universe: 3, batch, ops: idx.iter().map(|i| ops[*i]).collect() };
+            let case = Case { peers: 2, universe: 3, batch, ops: idx.iter().map(|i| ops[*i]).collect(), stalled: 0 };
             count += 1;
             for (k, w) in eval(ctx, &case, &uni3, true) {
                 ctx.violation(&k, w, json!({"check": "exhaustive", "case": case}));
@@ -465,7 +496,7 @@ pub fn run(ctx: &mut Ctx) {
         }
     }
     ctx.extra.insert("exhaustive_subspace".into(), json!({"depth": depth, "ops": ops.len(), "sequences": count, "universe": "2 peers x 3 blocks, batch 1 and 2"}));
-    let strat = (1u8..4, 2u8..9, prop_oneof![Just(1u8), Just(2u8), Just(3u8), Just(10u8)], proptest::collection::vec(arb_op(), 4..60)).prop_map(|(peers, universe, batch, ops)| Case { peers, universe, batch, ops });
+    let strat = (1u8..4, 2u8..9, prop_oneof![Just(1u8), Just(2u8), Just(3u8), Just(10u8)], proptest::collection::vec(arb_op(), 4..60), prop_oneof![3 => Just(0u8), 1 => 1u8..4]).prop_map(|(peers, universe, batch, ops, stalled)| Case { peers, universe, batch, ops, stalled });
     let cases = ctx.tier.pick(600u32, 20_000);
     pbt_run(ctx, "random_sequences", cases, strat, |c, case, counting| eval(c, case, &uni8, counting));
 }
